@@ -1,6 +1,6 @@
 (* C20/Model.v — redirect-binding signing under thread interleaving, as coded.
 
-   Mirrors (sigver.py 498-563, pack.py 127-190, request.py 109-115):
+   Mirrors (sigver.py 500-603, pack.py 142-205, request.py 109-115, entity.py 284-296):
      SIGNER_ALGS           module-level dict  SigAlg -> RSASigner(digest, key=None); created at import,
                            shared by every entity and thread of the process            [shared]
      RSACrypto(key)        one object per entity (SecurityContext.sec_backend); its .key is
